@@ -6,6 +6,7 @@ import (
 	"encoding/json"
 	"flag"
 	"fmt"
+	"log"
 	"log/slog"
 	"net/http"
 	"net/http/httptest"
@@ -469,6 +470,7 @@ const (
 	c5feSlog
 	c5feGrpc
 	c5feSugarNamed
+	c5feStd // the std-log bridge (sequential histories; made when the logger is built)
 	c5nFront
 )
 
@@ -550,6 +552,15 @@ func runC05(c *Ctx) {
 	core = lg.Core()
 	sug := lg.Sugar()
 	sl := slog.New(zapslog.NewHandler(core))
+	stdBridge := map[zapcore.Level]*log.Logger{}
+	for _, lv := range []zapcore.Level{zapcore.DebugLevel, zapcore.InfoLevel, zapcore.WarnLevel, zapcore.ErrorLevel} {
+		sl, err := zap.NewStdLogAt(lg, lv)
+		if err != nil {
+			c.Fail("C05: harness: NewStdLogAt refused a named level", "%v", err)
+			return
+		}
+		stdBridge[lv] = sl
+	}
 	// the gRPC adapter, one time in three built with WithDebug(): its Print
 	// family then logs at Debug level, everything else as before
 	grpcDebug := g.Chance(3)
@@ -654,6 +665,21 @@ func runC05(c *Ctx) {
 				l, sv = zapcore.ErrorLevel, slog.LevelError
 			}
 			sl.Log(context.Background(), sv, op.msg, slog.Any("o", c5marsh{w, op.msg}))
+		case c5feStd:
+			// a *log.Logger from NewStdLogAt, created when the logger was built
+			// (whatever the levels were then): it logs at its fixed level, under
+			// the filters in force now
+			switch {
+			case l <= zapcore.DebugLevel:
+				l = zapcore.DebugLevel
+			case l >= zapcore.ErrorLevel:
+				l = zapcore.ErrorLevel
+			}
+			if nTasks > 1 {
+				lg.Log(l, op.msg, field) // (a std logger holds its own lock while it writes: not shared between tasks)
+				break
+			}
+			stdBridge[l].Print(op.msg)
 		case c5feSugarNamed:
 			// the level-named sugared methods, in their four styles
 			style := 0
